@@ -40,9 +40,10 @@ def gen_positions(res, games, plies, sparse, corpus, null=0, with_games=False):
             f"gsgames {seed + 4} {max(1, games // 2)} {plies} 0"]
     pat = max(40, sparse // 5)
     # constructive patterns: castling (all king/rook files, hazards on the paths, rook shielded on the back rank),
-    # en passant (pins and discoveries on rank/diagonals/file, check by the pushed pawn), promotions next to castling rooks
+    # en passant (pins and discoveries on rank/diagonals/file, check by the pushed pawn), promotions next to castling rooks,
+    # several simultaneous pins of queens/rooks/bishops/knights/pawns on the king's lines
     reqs += ["#", f"gpattern {seed + 5} 0 {pat} 1", f"gpattern {seed + 6} 0 {pat // 2} 0", f"gpattern {seed + 7} 1 {pat * 3} 0",
-             f"gpattern {seed + 8} 2 {pat // 2} 1"]
+             f"gpattern {seed + 8} 2 {pat // 2} 1", f"gpattern {seed + 9} 3 {pat * 2} 0"]
     out = run_driver([q for q in reqs if q != "#"])
     fens = corpus_fens(corpus, rnd)
     fout = run_driver(["feninw " + f for f in fens])
@@ -481,6 +482,44 @@ def run_C09(res):
         res.evaluations += 1
         if a.split()[:22] != b.split()[:22] or not a.endswith("u=0 h=1"):
             res.fail("feeding the printed string back to the move parser does not select the same move", position=p, move=fmt_mv(m), observed=a[-40:])
+    session_scripts_C09(res)
+
+
+def session_scripts_C09(res):
+    """process level: the notation of castling in `go split 1` must follow the UCI_Chess960 option of the SESSION whatever sequence of
+    ucinewgame / position / stand-alone moves commands led to the position"""
+    import itertools
+    from props_uci import process_compare
+    vlib.cargo_build_bins()
+    line = "g1f3 g8f6 e2e4 e7e5 f1e2 f8e7"
+    scripts, expect = [], []
+    for frc, prelude, how, black in itertools.product((True, False), ([], ["ucinewgame"], ["position startpos", "ucinewgame"], ["ucinewgame", "ucinewgame"]),
+                                                      ("position", "moves", "fen"), (False, True)):
+        wc = "e1h1" if frc else "e1g1"
+        ml = line + (" " + wc if black else "")
+        sc = ["setoption name UCI_Chess960 value " + ("true" if frc else "false"), "isready"] + prelude
+        if how == "position":
+            sc.append("position startpos moves " + ml)
+        elif how == "moves":
+            sc.append("moves " + ml)
+        else:
+            sc.append("position fen rnbqk2r/ppppbppp/5n2/4p3/4P3/5N2/PPPPBPPP/RNBQK2R w KQkq - 4 4" + (" moves " + wc if black else ""))
+        sc += ["go split 1", "quit"]
+        scripts.append(sc)
+        expect.append((("e8h8" if frc else "e8g8") if black else wc, ("e8g8" if frc else "e8h8") if black else ("e1g1" if frc else "e1h1")))
+    for sc, (want, unwanted) in zip(scripts, expect):
+        for b in ("release", "checked"):
+            rc, out, err, to, secs = vlib.run_engine(sc, b, timeout=30)
+            res.evaluations += 1
+            res.count("session_scripts")
+            if to or rc != 0:
+                res.fail("engine crashed or hung on a notation session", script=sc, build=b)
+                continue
+            printed = [l.split()[0] for l in out.split("\n") if re.fullmatch(r"[a-h][1-8][a-h][1-8][nbrq]? \d+", l.strip())]
+            if want not in printed or unwanted in printed:
+                res.fail("castling is not printed in the notation selected by UCI_Chess960 for this session", script=sc, build=b,
+                         expected=want, printed=printed)
+    process_compare(res, scripts[:: (6 if res.tier == "quick" else 1)], "UCI transcript of a notation session")
 
 
 # ------------------------------------------------------------------ C10
